@@ -106,9 +106,14 @@ func NewSession(id uint16, clientMAC, serverMAC net.HardwareAddr) (*Session, err
 		return nil, fmt.Errorf("failed to generate session ID: %w", err)
 	}
 
+	// clientMAC usually points into the receive loop's frame buffer, which is
+	// overwritten by the next frame: the session must own its copy.
+	ownedMAC := make(net.HardwareAddr, len(clientMAC))
+	copy(ownedMAC, clientMAC)
+
 	return &Session{
 		ID:           id,
-		ClientMAC:    clientMAC,
+		ClientMAC:    ownedMAC,
 		ServerMAC:    serverMAC,
 		State:        StateDiscovery,
 		MagicNumber:  magic,
